@@ -74,6 +74,7 @@ func c16Wakeup(c *Ctx) {
 // disconnect) is processed, which can be well before the service has read the bytes relayed ahead of it; a Read that
 // answers io.EOF from the closed flag/closed channel first silently drops those bytes.
 func c16EOFAfterDrain(c *Ctx) {
+	c.Explanation += " agentConnection.Read returns io.EOF only under a dominating buffer-empty condition."
 	p := c.P
 	at := p.Type(agentRel, "agentConnection")
 	rd := p.Method(agentRel, "agentConnection", "Read")
